@@ -86,6 +86,10 @@ def run_free(chk, prop, tier, replay_set=None):
     jobs = []
     for name, stmts, ctx in sets:
         cfg = os.path.join(chk.work, "FreeForm_%s.cfg" % name)
+        if tier == "quick" and len(stmts) > 1:
+            mb, mx = 1, 2          # a `;` join together with a comment needs two extras
+        elif tier == "quick":
+            mb, mx = 2, 1
         with open(os.path.join(common.SPECS, "_FreeForm_%s_%s.cfg" % (name, tier)), "w") as f:
             f.write("SPECIFICATION Spec\nCONSTANTS\n  Stmts <- %s\n  MaxBreaks = %d\n  MaxExtras = %d\nINVARIANT RoundTrip\nINVARIANT CommentsKept\nCONSTRAINT Dump\n" % (name, mb, mx))
         jobs.append((name, "_FreeForm_%s_%s.cfg" % (name, tier)))
@@ -127,30 +131,27 @@ def _tlc_free(job):
 
 
 def truth_items(stmts, lay, with_comments=True):
-    """expected reader items (statements and comments merged in the order the reader delivers them:
-    a comment found inside a statement comes directly after it)."""
-    out = []
+    """Expected reader items.  Statements in source order with exact spans; a comment found on the physical
+    lines of a logical line (the statements joined by continuation and `;`) is delivered after the last
+    statement of that logical line, comments outside any statement where they stand."""
     cm = [(ln, "".join(txt)) for ln, txt in lay["cmts"]]
-    ci = 0
-    for (lab, nm, text), (f, l) in zip(stmts, lay["spans"]):
-        while ci < len(cm) and cm[ci][0] < f:
-            out.append(("c", cm[ci][1], None, None, cm[ci][0], cm[ci][0]))
-            ci += 1
-        out.append(("s", squeeze(text), int(lab) if lab else None, nm or None, f, l))
-    # comments inside or after statements: placed after the statement on whose lines they lie
-    # (rebuild in a second pass to get the order right)
+    sts = [("s", squeeze(text), int(lab) if lab else None, nm or None, f, l) for (lab, nm, text), (f, l) in zip(stmts, lay["spans"])]
+    # group statements whose spans touch (they share a physical line through `;`)
+    groups = []
+    for s in sts:
+        if groups and s[4] <= groups[-1][-1][5]:
+            groups[-1].append(s)
+        else:
+            groups.append([s])
     res = []
     ci = 0
-    k = 0
-    sts = [x for x in out if x[0] == "s"]
-    for si, s in enumerate(sts):
-        while ci < len(cm) and cm[ci][0] < s[4]:
+    for g in groups:
+        lo, hi = g[0][4], max(x[5] for x in g)
+        while ci < len(cm) and cm[ci][0] < lo:
             res.append(("c", cm[ci][1], None, None, cm[ci][0], cm[ci][0]))
             ci += 1
-        res.append(s)
-        nxt_first = sts[si + 1][4] if si + 1 < len(sts) else 10 ** 9
-        # comments on lines first..last of this statement, but not belonging to a later statement on the same line
-        while ci < len(cm) and cm[ci][0] <= s[5] and (cm[ci][0] < nxt_first or nxt_first > s[5]):
+        res.extend(g)
+        while ci < len(cm) and cm[ci][0] <= hi:
             res.append(("c", cm[ci][1], None, None, cm[ci][0], cm[ci][0]))
             ci += 1
     while ci < len(cm):
